@@ -24,7 +24,7 @@ def make_curve(n_app=300, n_ret=None, depth=1e-6, z0=3e-6,
                model_key="hertz_para", params=None, k=0.05, noise=0.,
                tilt=0., drift=0., seed=0, zoff=1.25e-6, baseline=0.,
                lag=0, spikes=0, path="/synthetic/curve.h5", enum=0,
-               with_tip=False, extra_meta=None, cls=None):
+               with_tip=False, extra_meta=None, cls=None, perturb=None):
     """Return a nanite.Indentation with an approach and a retract segment.
 
     The tip position runs from +z0 (far away) down to -depth (indented) and
@@ -56,6 +56,11 @@ def make_curve(n_app=300, n_ret=None, depth=1e-6, z0=3e-6,
         # the microscope flips the piezo `lag` samples before the force peaks
         seg = np.concatenate([np.zeros(n_app - lag, dtype=np.uint8),
                               np.ones(n_ret + lag, dtype=np.uint8)])
+    if perturb == "force":
+        f = f.copy()
+        f[n_app - 20] *= 1.0000001
+    if perturb == "time":
+        time = time * 1.5
     data = {"force": f,
             "height (measured)": tip - f / k + zoff,
             "time": time,
